@@ -73,6 +73,10 @@ type Tunnel struct {
 	channel uint8
 	control knxnet.HostInfo
 
+	// infoMu guards channel and control, which a reconnect rewrites while senders, the heartbeat
+	// and Close read them. The channel only ever changes while seqMu is held as well.
+	infoMu sync.RWMutex
+
 	// For outgoing requests
 	seqMu     sync.Mutex
 	seqNumber uint8
@@ -113,12 +117,14 @@ func (conn *Tunnel) requestConn() (err error) {
 		return err
 	}
 
+	conn.infoMu.Lock()
 	conn.control = hostInfo
+	conn.infoMu.Unlock()
 
 	req := &knxnet.ConnReq{
 		Layer:   conn.layer,
-		Control: conn.control,
-		Tunnel:  conn.control,
+		Control: hostInfo,
+		Tunnel:  hostInfo,
 	}
 
 	// Send the initial request.
@@ -159,9 +165,12 @@ func (conn *Tunnel) requestConn() (err error) {
 				switch res.Status {
 				// Conection has been established.
 				case knxnet.NoError:
-					conn.channel = res.Channel
-
+					// Channel and sequence number change together, so that a sender never pairs
+					// the new channel with the old counter.
 					conn.seqMu.Lock()
+					conn.infoMu.Lock()
+					conn.channel = res.Channel
+					conn.infoMu.Unlock()
 					conn.seqNumber = 0
 					conn.seqMu.Unlock()
 
@@ -185,7 +194,9 @@ func (conn *Tunnel) requestConn() (err error) {
 func (conn *Tunnel) requestConnState(
 	heartbeat <-chan knxnet.ErrCode,
 ) (knxnet.ErrCode, error) {
+	conn.infoMu.RLock()
 	req := &knxnet.ConnStateReq{Channel: conn.channel, Status: 0, Control: conn.control}
+	conn.infoMu.RUnlock()
 
 	// Send first connection state request
 	err := conn.sock.Send(req)
@@ -226,11 +237,15 @@ func (conn *Tunnel) requestConnState(
 
 // requestDisc sends a disconnect request to the gateway.
 func (conn *Tunnel) requestDisc() error {
-	return conn.sock.Send(&knxnet.DiscReq{
+	conn.infoMu.RLock()
+	req := &knxnet.DiscReq{
 		Channel: conn.channel,
 		Status:  0,
 		Control: conn.control,
-	})
+	}
+	conn.infoMu.RUnlock()
+
+	return conn.sock.Send(req)
 }
 
 // requestTunnel sends a tunnel request to the gateway and waits for an appropriate acknowledgement.
